@@ -123,6 +123,7 @@ class KernelTranslator:
         self.lets = []
         self.counter = {}
         self.extra_params = []   # (lean name, type)
+        self.fn_params = []      # uninterpreted binary functions (fluid property calls)
         self.uses_rows = set()
 
     # -- utilities ---------------------------------------------------------------------------
@@ -367,6 +368,26 @@ class KernelTranslator:
                 if v.kind == "err":
                     return v
             return Val("num", "(%s / %s)" % (self.num(a, node), self.num(b, node)))
+        if name == "np.less_equal" and len(args) == 2:
+            a, b = self.expr(args[0], env), self.expr(args[1], env)
+            for v in (a, b):
+                if v.kind == "err":
+                    return v
+            return Val("bool", "(le %s %s)" % (self.num(a, node), self.num(b, node)))
+        if name == "np.empty_like":
+            # an array that must be completely overwritten (complementary masked writes) before it is read
+            return Val("uninit")
+        if name == ".get_compressibility" and len(args) in (1, 2):
+            # fluid property call: an uninterpreted function parameter `Z p T` of the generated definition
+            vs = [self.expr(x, env) for x in args]
+            for v in vs:
+                if v.kind == "err":
+                    return v
+            if "Z" not in self.fn_params:
+                self.fn_params.append("Z")
+            if len(vs) == 1:
+                return Val("err", msg="%s:%s: one-argument compressibility" % (self.path, node.lineno))
+            return Val("num", "(Z %s %s)" % (self.num(vs[0], node), self.num(vs[1], node)))
         if name == "np.isnan":
             v = self.expr(args[0], env)
             if v.kind == "err":
@@ -396,7 +417,10 @@ class KernelTranslator:
         if name == "np.full" and len(args) == 2:
             return self.expr(args[1], env)
         if name in (".copy", ".astype") and isinstance(node.func, ast.Attribute):
-            return self.expr(node.func.value, env)
+            inner = self.expr(node.func.value, env)
+            if name == ".astype" and args and "bool" in ast.dump(args[0]) and inner.kind == "num":
+                return Val("bool", "(neq %s (ofN 0))" % inner.lean)
+            return inner
         if name == "np.where" and len(args) == 3:
             c, a, b = (self.expr(x, env) for x in args)
             for v in (c, a, b):
@@ -502,6 +526,18 @@ class KernelTranslator:
             if s.kind == "const" and isinstance(s.pyconst, bool):
                 if s.pyconst:
                     env[name] = self.emit(name, val)
+                return
+            if s.kind == "bool" and old.kind == "uninit" and val.kind in ("num", "const"):
+                part = Val("partial")
+                part.mask, part.val = s.lean, self.num(val, node)
+                env[name] = part
+                return
+            if s.kind == "bool" and old.kind == "partial" and val.kind in ("num", "const"):
+                if s.lean != "(!%s)" % old.mask and old.mask != "(!%s)" % s.lean:
+                    env[name] = Val("err", msg="%s:%s: masked writes to %s do not cover the array" % (
+                        self.path, node.lineno, name))
+                    return
+                env[name] = self.emit(name, Val("num", "(sel %s %s %s)" % (s.lean, self.num(val, node), old.val)))
                 return
             if s.kind == "bool":
                 if val.kind == "err" or old.kind == "err":
@@ -729,7 +765,8 @@ class KernelTranslator:
             rows.append("(nf : NodeRow α)")
         if "nt" in self.uses_rows:
             rows.append("(nt : NodeRow α)")
-        params = " ".join(rows + ["(%s : %s)" % (n, t) for n, t in self.extra_params])
+        params = " ".join(rows + ["(%s : α → α → α)" % n for n in self.fn_params] +
+                          ["(%s : %s)" % (n, t) for n, t in self.extra_params])
         fields = []
         for nm, v in outs:
             fields.append((nm, "Bool" if v.kind == "bool" else "α"))
@@ -749,7 +786,7 @@ class KernelTranslator:
         meta = {
             "lean_name": self.lean_name, "pyfile": os.path.relpath(self.path, REPO), "pyfunc": self.funcname,
             "domain": self.domain, "rows": sorted(self.uses_rows, key=["b", "n", "nf", "nt"].index),
-            "extra": [[n, t] for n, t in self.extra_params],
+            "extra": [[n, t] for n, t in self.extra_params], "fn_params": list(self.fn_params),
             "outputs": [[self.pyname(nm), t] for nm, t in fields],
         }
         return "\n".join(lines) + "\n", meta
